@@ -109,7 +109,7 @@ mod verif_toggle {
         // SAFETY: ASCII only
         let text = unsafe { core::str::from_utf8_unchecked(&full) };
         kani::cover!(o[0] == b'/', "a single slash");
-        assert!(parse_toggle(text).is_none(), "OB ignore/toggle_only_in_comments: only `//`, `{` and `(*` open a toggle comment");
+        assert!(parse_toggle(text).is_none(), "OB ignore/toggle_only_in_comments: only line-comment, brace and paren-star openers start a toggle comment");
     }
 
     // ---- region marking, with the marker's hash set replaced by a bit array (its contract is checked in unit `marker`)
